@@ -138,6 +138,8 @@ def expect_map2idx(attrnode, k, va):
 def norm_item(itemview, k):
     """item up to the position of the key attribute"""
     kind, tag, ps = itemview
+    if kind != 'm':
+        return itemview
     rest = [(a, b) for a, b in ps if not (a[0] == 's' and a[2] == k)]
     key = [(a[2], b) for a, b in ps if a[0] == 's' and a[2] == k]
     return (kind, tag, rest, key)
@@ -356,7 +358,10 @@ def tie(ctx, model_ok=True):
     dist = {}
     for idx, (init, ops, kind) in enumerate(cases):
         final, rets, trace = nodeops.run_impl(init, ops)
-        o = oracle(init, ops, rets, final, trace) if kind == 'transform' else dash_oracle(init, ops, rets, trace)
+        try:
+            o = oracle(init, ops, rets, final, trace) if kind == 'transform' else dash_oracle(init, ops, rets, trace)
+        except Exception as e:     # noqa  (an unexpected result shape trips the oracle: that is a failure of the shape)
+            o = (f'{ops[0][0]}:unexpected-shape', f'{ops}: result has an unexpected shape ({type(e).__name__}: {e})')
         if o is not None:
             res['failing'].append({'signature': o[0], 'what': o[1],
                                    'case': {'init': pv(init), 'ops': repr(ops)}})
